@@ -146,7 +146,7 @@ int main(int argc, char** argv) {
   server.config.thread_pool_size = programOptions.numberOfThreads;
 
   // updateCache:
-  server.resource["^/updateCache[/]?$"]["GET"]=[&server, &transitData](std::shared_ptr<HttpServer::Response> serverResponse, std::shared_ptr<HttpServer::Request> request) {
+  server.resource["^/updateCache[/]?$"]["GET"]=[&server, &transitData, &dataStatus](std::shared_ptr<HttpServer::Response> serverResponse, std::shared_ptr<HttpServer::Request> request) {
 
     std::string              response {""};
     std::vector<std::string> parametersWithValues;
@@ -267,6 +267,9 @@ int main(int argc, char** argv) {
     // TODO Just the schedules???
     if (atLeastOneCorrectCacheName)
     {
+      // the endpoints answer data_error according to this status: it must follow the data just reloaded
+      dataStatus = transitData.getDataStatus();
+
       // Remove last ","
       cacheNamesStr.pop_back();
       nlohmann::json jsonResponse;
